@@ -68,32 +68,35 @@ def encPeerAddr : PeerAddr → Bytes
   | .v4 ip port => writeU8 0 ++ writeFixed ip ++ writeU16 port
   | .v6 segs port => writeU8 1 ++ (segs.map writeU16).flatten ++ writeU16 port
 
-/-- `Ipv6Addr::to_ipv4()`: `::a.b.c.d` and `::ffff:a.b.c.d` -/
+/-- `Ipv6Addr::to_ipv4_mapped()`: only `::ffff:a.b.c.d` (since /repo 7698a7ec9; `to_ipv4()` before,
+which also mapped `::a.b.c.d`) -/
 def toIpv4 (segs : List Nat) : Option Bytes :=
   match segs with
   | [0, 0, 0, 0, 0, f, ab, cd] =>
-    if f = 0 ∨ f = 0xffff then some [ab / 256, ab % 256, cd / 256, cd % 256] else none
+    if f = 0xffff then some [ab / 256, ab % 256, cd / 256, cd % 256] else none
   | _ => none
 
-/-- the V6 branch's result: a V4 address when `to_ipv4()` is `Some` -/
+/-- the V6 branch's result: a V4 address when `to_ipv4_mapped()` is `Some` -/
 def v6Result (segs : List Nat) (port : Nat) : PeerAddr :=
   match toIpv4 segs with
   | some ip => .v4 ip port
   | none => .v6 segs port
 
 /-- `Readable for PeerAddr`.  `ip[0..3]` on the 4-byte `Vec` and `ip[0..7]` on the 8 collected
-segments are in range by construction (explicit `index` panic branches otherwise). -/
+segments are in range by construction (explicit `index` panic branches otherwise).  A tag byte
+other than 0 / 1 is `CorruptedData` (since /repo 7fb4be0aa; read as V6 before). -/
 def decPeerAddr (rd : Rdr) : Dec PeerAddr := fun bs =>
   bind (rU8 bs) fun tag r =>
     if tag = 0 then
       bind (rFixed rd 4 r) fun ip r =>
       bind (rU16 r) fun port r =>
         if ip.length ≠ 4 then .panic .index 0 else .ok (.v4 ip port) r 0
-    else
+    else if tag = 1 then
       bind (readN rU16 8 r) fun segs r =>
         if segs.length ≠ 8 then .panic .index 0 else
         bind (rU16 r) fun port r =>
           .ok (v6Result segs port) r 0
+    else .err .corrupted 0
 
 /-- `size_of::<PeerAddr>()` (= `SocketAddr`) -/
 def PEER_ADDR_MEM : Nat := 32
